@@ -119,7 +119,10 @@ struct LqRun {
             // ciphertext damaged in the store and read with non-validating unmarshal
             size_t n = R.jv_lq_get_marshalled_length(view, JV_OK_LQ_CT, op.arg(2) != 0); Bytes b(n, 0); R.jv_lq_marshal(view, JV_OK_LQ_CT, b.p, ct, op.arg(2) != 0);
             b.p[n - 1 - (size_t) op.arg(3) % (n / 2)] ^= (uint8_t) (1u << (op.arg(3) & 7));
-            Buf c2(R.sz(JV_SZ_LQ_CT)); if (!R.jv_lq_unmarshal(view, JV_OK_LQ_CT, c2, b.p, op.arg(2) != 0, 0)) return; ct = c2; expect_same = false; what = "ciphertext damaged in the store, non-validating read"; env.count("fault:lq_ciphertext_flip_nonvalidating");
+            Buf c2(R.sz(JV_SZ_LQ_CT)); if (!R.jv_lq_unmarshal(view, JV_OK_LQ_CT, c2, b.p, op.arg(2) != 0, 0)) return;
+            // a flipped bit that the non-validating reader ignores (flag bits of a later coordinate) leaves the ciphertext itself unmodified
+            if (w.c2(rp_of(c2)) == w.c2(rp_of(ct))) { env.count("probe:damaged_bytes_decode_to_same_ciphertext"); return; }
+            ct = c2; expect_same = false; what = "ciphertext damaged in the store, non-validating read"; env.count("fault:lq_ciphertext_flip_nonvalidating");
         }
         else if (variant == 5) {
             // intact marshalling hop of everything the receiver uses
